@@ -2,6 +2,8 @@ import Verif.Base.Sexp
 import Verif.Model.KeyToLabel
 import Verif.Model.Rfc3339
 import Verif.Model.Frames
+import Verif.Model.Docker
+import Verif.Driver.Codec
 /-! Line-protocol driver: one request per line on stdin, one reply per line on stdout.
 Core-only (no Mathlib), compiled as `lean_exe driver`. -/
 open Sexp
@@ -12,6 +14,24 @@ def endSym : Frames.End → Sexp
 
 def framesOut (r : List Frames.Rec × Frames.End) : Sexp :=
   .list [.list (r.1.map fun x => .list [sym "rec", ofInt x.ts, ofBytes x.body]), endSym r.2]
+
+def decodeContainer (s : Sexp) : Docker.Container :=
+  match s.args with
+  | [id, names, image, imageId, cmd, created, state, status, labels] =>
+    { id := id.toBytes, names := names.items.map toBytes, image := image.toBytes, imageId := imageId.toBytes,
+      command := cmd.toBytes, created := created.toBytes, state := state.toBytes, status := status.toBytes,
+      labels := Codec.decodePairs labels }
+  | _ => { id := [], names := [], image := [], imageId := [], command := [], created := [], state := [], status := [], labels := [] }
+
+def decodeOp (s : Sexp) : Docker.Op :=
+  match s.symOf with
+  | "eq" => .eq | "ne" => .ne | "re" => .re | _ => .nre
+
+def decodeMatcher (s : Sexp) : Docker.Matcher :=
+  match s.args with
+  | [l, op, v] => ⟨l.toBytes, decodeOp op, v.toBytes, .eps⟩
+  | [l, op, v, re] => ⟨l.toBytes, decodeOp op, v.toBytes, Codec.decodeRe re⟩
+  | _ => ⟨[], .eq, [], .eps⟩
 
 def handle (req : Sexp) : Sexp :=
   match req.head?, req.args with
@@ -24,6 +44,10 @@ def handle (req : Sexp) : Sexp :=
   | some "frameschunks", [cs] =>
     let chunks := cs.items.map toBytes
     framesOut (Frames.decodeChunks Rfc3339.parse (chunks.flatten.length + 1) chunks)
+  | some "select", [inst, inv, sel, st, en] =>
+    let cs := Docker.select Regex.fullMatch (inv.items.map decodeContainer) (sel.items.map decodeMatcher)
+    let w := Docker.logsWindow (inst.toNat == 1) st.toInt en.toInt
+    .list [.list (cs.map fun c => .list [ofBytes c.id, Codec.labelsOut (Docker.getLabels c)]), ofInt w.since, ofInt w.until_]
   | _, _ => .list [sym "bad-op"]
 
 partial def loop (h : IO.FS.Stream) (out : IO.FS.Stream) : IO Unit := do
